@@ -238,7 +238,7 @@ func (e *Engine) staticCall(f *frame, st *State, fn *ssa.Function, args []Val, b
 		// method receivers may be nil: callee dereferences are its own obligation, but with a contract the
 		// caller must establish "receiver != nil" only if the contract requires it.
 		ct := e.W.Contracts[key]
-		if top := topFrame(f); ct != nil && top.ct != nil && top.ct.Expand[key] {
+		if top := topFrame(f); top.ct != nil && top.ct.Expand[key] {
 			// the function under verification asks for this callee's body (lemmas about the body itself)
 			rets, exit, _ := e.execFunc(fn, args, binds, st, f, ct)
 			*st = *exit
